@@ -962,6 +962,46 @@ theorem C06_friendly_programs_are_recovered (c : Cfg) (hc : CfgOK c) (p : Proc) 
       exact Nat.le_trans (Nat.mul_le_mul_right _ (by simpa using hlen)) hroom)
   exact C06_scan_recovers_laid_file c hc.meta_pos f _ L 0 fuel s (by simpa using hlaid) hfuel
 
+/-! what the registered blocks mean for the reader chains -/
+
+/-- the blocks of topic `t` among `L`, as the scan registers them when it starts numbering at `base` -/
+def chainOf (c : Cfg) (f : Nat) (t : Topic) : Nat → List LBlock → List Blk
+  | _, [] => []
+  | base, b :: r =>
+    if b.topic = t then
+      { id := base, file := f, off := b.off, limit := b.lim c, used := totalRaw c b.es } :: chainOf c f t (base + 1) r
+    else chainOf c f t (base + 1) r
+
+theorem reader_chain_appendBlockToChain (i : Inst) (t t' : Topic) (b : Blk) :
+    ((appendBlockToChain i t b).reader t').chain = if t = t' then (i.reader t').chain ++ [b] else (i.reader t').chain := by
+  unfold appendBlockToChain Inst.reader
+  simp only
+  rw [AMap.get?_insert]
+  by_cases e : t = t'
+  · subst e
+    simp only [if_true, Option.getD_some]
+    split <;> rfl
+  · simp only [e, if_false]
+
+/-- **The recovered reader chains.**  After the scan has registered the blocks `L`, the reader chain of every topic is
+what it was before, followed by exactly that topic's blocks of `L` - in file order, numbered as the scan numbers
+them, each with `used` = the extent of the entries written into it. -/
+theorem C06_recovered_chains (c : Cfg) (f : Nat) (t : Topic) (L : List LBlock) :
+    ∀ (s : ScanSt), ((L.foldl (blockStep c f) s).inst.reader t).chain =
+      (s.inst.reader t).chain ++ chainOf c f t s.nextId L ∧ (L.foldl (blockStep c f) s).nextId = s.nextId + L.length := by
+  induction L with
+  | nil => intro s; simp [chainOf]
+  | cons b r ih =>
+    intro s
+    simp only [List.foldl_cons]
+    obtain ⟨h1, h2⟩ := ih (blockStep c f s b)
+    rw [h1, h2]
+    simp only [blockStep, chainOf, reader_chain_appendBlockToChain, List.length_cons]
+    refine ⟨?_, by omega⟩
+    by_cases e : b.topic = t
+    · simp [e]
+    · simp [e]
+
 /-- the starting point is what `open` on an empty directory produces -/
 example : ∃ i, (Eng.step smallCfg {} (.open_ .strict)).1.inst = some i ∧
     DiskInv smallCfg (Eng.step smallCfg {} (.open_ .strict)).1 i 0 [] := by
